@@ -505,7 +505,8 @@ fn classify_death(status: Option<std::process::ExitStatus>, tail: &str) -> Strin
 	}
 	if let Some(line) = tail.lines().rev().find(|l| l.contains("LLVM ERROR"))
 	{
-		let l: String = line.chars().take(80).collect();
+		let from = line.find("LLVM ERROR").unwrap_or(0);
+		let l: String = line[from..].chars().take(80).collect();
 		return format!("llvm-abort {}", l.trim());
 	}
 	if let Some(line) = tail
@@ -774,6 +775,7 @@ fn run_single(
 			Err(RecvTimeoutError::Disconnected) =>
 			{
 				let (sig, tail) = w.death_signature();
+				let sig = format!("{} [stream {}]", sig, sname);
 				res.push((sig, json!({"stderr_tail": tail, "crashed": true})));
 				break;
 			}
@@ -1048,6 +1050,9 @@ pub fn run_check(check: &dyn Check, cfg: &RunConfig) -> i32
 								tail,
 							} =>
 							{
+								// a crash is attributed to the stream it happened in, so
+								// that a recorded crash of one stream cannot hide another
+								let sig = format!("{} [stream {}]", sig, sname);
 								w.take().unwrap().kill();
 								let mut q = queue.lock().unwrap();
 								if blk.stride > 1 && stride_end - at > 1
